@@ -1458,6 +1458,10 @@ class GenFunctions(object):
 
         # Function result.
         has_string_result = False
+        # Results described by a context struct: there are no cfi
+        # statements for them, they use the bufferify statements.
+        has_vector_result = False
+        need_cdesc_result = False
 
         result_as_arg = ""  # Only applies to string functions
         # when the result is added as an argument to the Fortran api.
@@ -1471,6 +1475,11 @@ class GenFunctions(object):
             has_string_result = True
             result_as_arg = fmt_func.F_string_result_as_arg
             result_name = result_as_arg or fmt_func.C_string_result_as_arg
+        elif result_typemap.base == "vector":
+            has_vector_result = True
+        elif result_is_ptr and (attrs["deref"] in ["allocatable", "pointer"]
+                                or attrs["dimension"]):
+            need_cdesc_result = True
 
         if not (has_cfi_arg or
                 has_string_result):
@@ -1511,7 +1520,9 @@ class GenFunctions(object):
 
         C_new.wrap.assign(c=True)#, fortran=True)
         C_new._PTR_C_CXX_index = node._function_index
-        if (result_is_ptr and not has_string_result and
+        if has_vector_result or need_cdesc_result:
+            C_new.result_suffix = "buf"
+        elif (result_is_ptr and not has_string_result and
             result_typemap.sgroup in ["native", "char", "string", "void"]):
             # The result is returned as it is: there are no cfi statements for it.
             C_new.result_suffix = ""
@@ -1571,6 +1582,19 @@ class GenFunctions(object):
                 attrs = result_as_string.attrs
             result_as_string.metaattrs["is_result"] = True
             C_new.ast.metaattrs["intent"] = None
+
+        elif has_vector_result:
+            # as arg_to_buffer: pass an argument for the function result.
+            result_name = fmt_func.F_string_result_as_arg or fmt_func.C_string_result_as_arg
+            result_as_vector = ast.result_as_arg(result_name)
+            result_as_vector.attrs["context"] = options.C_var_context_template.format(
+                c_var=result_name)
+            self.move_arg_attributes(result_as_vector, node, C_new)
+            result_as_vector.metaattrs["is_result"] = True
+            C_new.ast.metaattrs["intent"] = None
+        elif need_cdesc_result:
+            C_new.ast.attrs["context"] = options.C_var_context_template.format(
+                c_var=fmt_func.C_local + fmt_func.C_result)
 
         if result_as_arg:
             F_new = self.result_as_arg(node, C_new)
